@@ -49,6 +49,11 @@ CURATED = [
 _RENDER_TEXTS = [("host:80", "host:8080"), (":1", ":2"), ("a:-1", "a:-12"), ("NameExpr(a)", "NameExpr(b)"), ("x:3:y", "x:4:y"), ("1", "1 ")]
 _RENDER_WRAPS = [("bytes", "b{!r}"), ("lambda", "(lambda: {!r})"), ("conditional", "({!r} if a else 0)"), ("comprehension", "[{!r} for _ in xs]"),
                  ("fstring", "f'{{a}}' {!r}"), ("str", "{!r}"), ("call-arg", "f(b{!r})"), ("set-comp", "{{{!r} for _ in xs}}")]
+# the same operands in the same order under one repeated operator, grouped differently
+_OPS = ["-", "/", "**", "%", "//", "<<", "+", "*", "@", "|", "&", "^"]
+CURATED += [(f"regrouped:{op}", l_, r_, "one") for op in _OPS for l_, r_ in (
+    (f"a {op} (b {op} c)", f"a {op} b {op} c"), (f"(a {op} b) {op} c", f"a {op} b {op} c"), (f"a {op} (b {op} (c {op} n))", f"(a {op} b) {op} (c {op} n)"),
+    (f"f(a {op} (b {op} c))", f"f(a {op} b {op} c)"), (f"(a {op} b) {op} (c {op} n)", f"a {op} b {op} c {op} n")) if l_ != r_]
 CURATED += [(f"rendering-text:{w}", t.format(x), t.format(y), layout) for w, t in _RENDER_WRAPS for x, y in _RENDER_TEXTS for layout in ("one", "two")]
 
 UNREACHABLE = """
